@@ -10,6 +10,9 @@ for id in "${ids[@]}"; do
   git -C $REPO apply $here/seeded/$id/patch.diff 2>/dev/null || (cd $REPO && patch -p1 -s < $here/seeded/$id/patch.diff) || { echo "$id PATCH-FAILS"; git -C $REPO checkout -- .; git -C $REPO clean -fdq; continue; }
   out=$($here/bin/check quick $p 2>&1); rc=$?
   git -C $REPO checkout -- . ; git -C $REPO clean -fdq
-  if [ $rc -eq 1 ] && echo "$out" | grep -q '^VIOLATION'; then echo "$id detected ($(echo "$out" | grep -c '^VIOLATION'))"; else echo "$id MISSED rc=$rc"; fi
+  if [ $rc -eq 1 ] && echo "$out" | grep -q '^VIOLATION'; then
+    n=$(echo "$out" | grep '^VIOLATION' | grep -vc 'no-failing-input-found$'); m=$(echo "$out" | grep '^VIOLATION' | grep -c 'no-failing-input-found$')
+    echo "$id detected (with a failing input of the property: $n; model/proof disagreement only: $m)$([ $n -eq 0 ] && echo ' CORRESPONDENCE-ONLY')"
+  else echo "$id MISSED rc=$rc"; fi
 done
 git -C $here checkout -- evidence 2>/dev/null; git -C $here clean -fdq replays 2>/dev/null
